@@ -27,7 +27,7 @@ theorem lifted_facts (c : Cfg) (he : errFree c) (m : Nat) (hle : m ≤ c.batches
     yields s'.obs = oks ((c.batches.drop m).take s'.rcvdIdx) ∧ Obs.assertion ∉ s'.obs ∧
     s'.numYielded = m + (yields s'.obs).length ∧ s'.numYielded = m + s'.rcvdIdx ∧
     (Obs.stop ∈ s'.obs → s'.rcvdIdx + m = c.batches.length) := by
-  have hna : Obs.assertion ∉ preObs c m ++ s'.obs := h.sn.noas (Or.inr he)
+  have hna : Obs.assertion ∉ preObs c m ++ s'.obs := h.sn.noas
   have hobs : ObsRel (c.batches.take (s'.rcvdIdx + m)) (taskObs (preObs c m ++ s'.obs)) := h.inv.obs
   have hto := ObsRel_noassert _ _ hobs (fun hh => hna (mem_taskObs _ _ hh))
   have hy : yields (preObs c m ++ s'.obs) = oks (c.batches.take (s'.rcvdIdx + m)) := by
